@@ -787,3 +787,67 @@ def gen_cl_order(rng):
     else:               # two capacitors around an inductor, no source path for one of them
         nl = ['C1 1 0 %d %s' % (vals[0], ics[0]), 'R1 1 2 %d' % vals[1], 'L1 2 3 %d %s' % (vals[2], ics[1]), 'C2 3 0 %d %s' % (vals[3], ics[2]), 'R2 3 0 %d' % (vals[1] + 1)]
     return nl
+
+
+def matrix_form_oracle(r, fam):
+    """the matrix form A y = b that the analysis derives from its own equations is the same affine map as the printed
+    equations: A y_p - b equals the printed residuals at every probe assignment y_p (exact)"""
+    bad = []
+    st = {'checked': 0}
+    d = r.get(fam)
+    if not d or 'matrix' not in d:
+        return bad, st
+    mf = d['matrix']
+    if mf.get('time_domain'):
+        return bad, st
+    if 'error' in mf:
+        bad.append({'key': '%s:matrix-form:%s' % (fam, mf['error'].split(':')[0]), 'what': '%s analysis: A / b raise or misbehave: %s' % (fam, mf['error'])})
+        return bad, st
+    A, b, yk = mf['A'], mf['b'], mf['ykeys']
+    eqs = d['equations']
+    if any(q['error'] or any(v is None for v in q['vals']) for q in eqs) or any(x is None for row in A for x in row) or any(x is None for x in b) \
+            or any(k is None for k in yk) or len(A) != len(eqs):
+        return bad, st
+    for pi, (env, env0) in enumerate(d['probes']):
+        yv = [Num.of(env[str(k)]) for k in yk]
+        for i, q in enumerate(eqs):
+            lhs = Num(0)
+            for j in range(len(yv)):
+                lhs = lhs + Num.of(A[i][j]) * yv[j]
+            st['checked'] += 1
+            if not (lhs - Num.of(b[i]) - Num.of(q['vals'][pi])).is_zero():
+                bad.append({'key': '%s:matrix-form' % fam, 'what': '%s analysis: row %d of A y - b differs from the printed equation %s = %s at a probe assignment' % (fam, i, q['lhs'][:80], q['rhs'][:30])})
+                return bad, st
+    return bad, st
+
+
+def printed_ss_oracle(pr, A, B, C, D, discrete):
+    """state_equations() / output_equations() show  x' (or x[n+1]) = A x + B u  and  y = C x + D u  with the matrices of the
+    model and the vectors in their places.  pr: worker dump (ss_printed); matrices as lists of 'p/q' strings"""
+    bad = []
+    if not pr:
+        return bad
+    xn, yn = pr['xn'], pr['yn']
+    for nm, M1, M2, lhs_want in (('state', A, B, [('N:' if discrete else 'D:') + x for x in xn]), ('output', C, D, yn)):
+        e = pr.get(nm, {})
+        if 'error' in e:
+            bad.append({'key': 'ss:printed-%s-equations:%s' % (nm, e['error'].split(':')[0]), 'what': '%s_equations() fails: %s' % (nm, e['error'])})
+            continue
+        ok = e['lhs'] == lhs_want
+        want = []
+        if len(xn) > 0:
+            want.append((M1, xn))
+        nu = len(M2[0]) if M2 and M2[0] else 0
+        if nu > 0:
+            want.append((M2, None))
+        got = [(t['M'], t['v']) for t in e['terms']]
+        if len(got) != len(want):
+            ok = False
+        else:
+            for Mw, vw in want:
+                hit = [g for g in got if g[0] == Mw and (vw is None or g[1] == vw)]
+                if not hit:
+                    ok = False
+        if not ok:
+            bad.append({'key': 'ss:printed-%s-equations' % nm, 'what': '%s_equations() does not show the model matrices / vectors in their places: %s' % (nm, str(e)[:200])})
+    return bad
